@@ -150,10 +150,13 @@ def make_input(indir, main_text, backward_text=''):
 
 
 def strip_comments(text):
+    """the C++ token content of a generated file: block comments, line comments (also trailing ones) and layout removed"""
+    text = re.sub(r'/\*.*?\*/', ' ', text, flags=re.S)
     out = []
     for line in text.split('\n'):
-        s = line.strip()
-        if s.startswith('//') or not s:
+        # a trailing // comment (none of the generated string literals contains //)
+        s = re.sub(r'//.*$', '', line).strip()
+        if not s:
             continue
         out.append(re.sub(r'\s+', ' ', s))
     return out
